@@ -34,7 +34,7 @@ def main():
         tf = os.path.join(ctx.scratch, 'one.tr'); open(tf, 'w').write(json.dumps(dict(tr, t=1)) + '\n')
         if cli:
             import cliprop
-            bad = cliprop.judge(ctx, [sc], tf, {'C02','C07','C11','C12','C14','C18','C20'})
+            bad = cliprop.judge(ctx, [sc], tf, {'C02','C07','C11','C12','C14','C18','C20'}, confirm=False)
         else:
             bad, r = srvfam.validate(ctx, tf)
         print('VERDICT', bad)
